@@ -140,7 +140,7 @@ fn apply_version(
     Ok(())
 }
 //@end
-//@props C01 C02 C04 C12 C14
+//@props C01 C02
 /// from_op's contract (stated through the wire view) determines its result
 pub proof fn lemma_from_op_is_to_sync1(op: Operation, r: Option<SyncOp>)
     requires from_op_post(op, r)
